@@ -613,6 +613,44 @@ pub fn run_fileset(args: &Args, mut out: Out) {
         }
         let prefix = dir.join("fs.log");
         out.ev(sid, "Reset", json!({}));
+        // the builder: every setting ends up in its own field, unset ones keep the documented defaults, and values
+        // below the documented minimum are refused (-1 = the method is not called)
+        {
+            let pick = |r: &mut StdRng, min: i64| -> i64 {
+                match r.gen_range(0..6) {
+                    0 => -1,
+                    1 => min,
+                    2 => min - 1,
+                    3 => min + 1,
+                    4 => r.gen_range(0..min),
+                    _ => r.gen_range(min..2_000_000_000),
+                }
+            };
+            let keep: i64 = r.gen_range(0..2_000_000_000);
+            let (wb, wa, ka) = (pick(&mut r, 65_536), pick(&mut r, 1), pick(&mut r, 60));
+            let prefix2 = prefix.clone();
+            let built = catch(move || {
+                let mut b = LogFileWriter::new_builder(prefix2, keep as u64);
+                if wb >= 0 {
+                    b = b.with_max_write_bytes(wb as u64);
+                }
+                if wa >= 0 {
+                    b = b.with_max_write_age(Duration::from_secs(wa as u64));
+                }
+                if ka >= 0 {
+                    b = b.with_max_keep_age(Duration::from_secs(ka as u64));
+                }
+                b
+            });
+            let got = match &built {
+                Ok(b) => json!({"panic": false, "keepBytes": b.max_keep_bytes, "writeBytes": b.max_write_bytes,
+                                "writeAgeS": b.max_write_age.as_secs(), "writeAgeNs": b.max_write_age.subsec_nanos(),
+                                "keepAgeS": b.max_keep_age.map_or(-1, |d| d.as_secs() as i64),
+                                "prefixSame": b.path_prefix == prefix}),
+                Err(()) => json!({"panic": true, "keepBytes": 0, "writeBytes": 0, "writeAgeS": 0, "writeAgeNs": 0, "keepAgeS": -1, "prefixSame": true}),
+            };
+            out.ev(sid, "Config", json!({"args": {"keepBytes": keep, "writeBytes": wb, "writeAgeS": wa, "keepAgeS": ka}, "got": got}));
+        }
         // distinct ages and distinct lengths, so that every deletion is identifiable
         let mut ages: Vec<i64> = (-50..150).collect();
         ages.shuffle(&mut r);
